@@ -1,5 +1,6 @@
 (* Props_C12.v — C12: a probe succeeds only on genuine evidence; indirect probing is routed correctly. *)
-From Foca Require Import Laws MembersM ProbeM FocaM WireM L_Members L_MembersInv Inv L_Wire L_Probe L_RoundEnd.
+From Foca Require Import Laws MembersM ProbeM FocaM WireM L_Members L_MembersInv Inv L_Wire L_Probe L_RoundEnd L_IndirectStage L_RoundSuspect.
+From Coq Require Import Permutation.
 
 Section C12.
 Context {Id Addr : Type} {IO : IdOps Id Addr} {CO : CodecOps Id} {HO : HandlerOps Id}.
@@ -116,6 +117,56 @@ Proof.
   cbn [app] in O. rewrite O. exact E.
 Qed.
 
+(* THE INDIRECT STAGE as one call: the SendIndirectProbe timer sends only PingReq(target, current
+   number) datagrams, only while the round is still open (current token, this target, no evidence
+   yet, target still active), at most num_indirect_probes of them, each to an active record other
+   than the target; in every other situation it sends nothing *)
+Theorem C12_indirect_stage (rnd : oracle) (f : @foca Id Addr HO) (probed : Id) (tok : N) :
+  let es := snd (fst (fst (step rnd f (ITimer (TSendIndirectProbe probed tok))))) in
+  (es <> [] -> tok = token f /\ probe_is_probing (prb f) probed = true
+               /\ probe_succeeded (prb f) = false /\ is_active_id (mems f) probed = true)
+  /\ exists helpers,
+       Forall (pingreq_to helpers (identity f) (incarnation f) probed) es
+       /\ len es <= num_indirect_probes (cfg f)
+       /\ forall hm, In hm helpers -> In hm (inner (mems f)) /\ m_active hm = true /\ id_eqb (m_id hm) probed = false.
+Proof. exact (indirect_stage rnd f probed tok). Qed.
+
+Theorem C12_pingreq_to_meaning (helpers : list (member Id)) (id : Id) (inc : N) (probed : Id) (e : effect Id) :
+  pingreq_to helpers id inc probed e <->
+  match e with
+  | Send dst b => exists n rest hm, In hm helpers /\ m_id hm = dst
+                                    /\ b = enc_hdr (mkHeader id inc dst (PingReq probed n)) ++ rest
+  | _ => False
+  end.
+Proof. reflexivity. Qed.
+
+(* what the end of a round does to the member list: (up to the probe order, which the round-robin
+   may reshuffle) exactly the Suspect update of the failed target applied through apply_existing_if,
+   nothing else; and that update turns a target still Alive at the probed incarnation into Suspect *)
+Theorem C12_round_end_members (rnd : oracle) (f : @foca Id Addr HO) :
+  conn f = Connected ->
+  Permutation (inner (mems (fst (fst (fst (step rnd f (ITimer (TProbeRandomMember (token f)))))))))
+              (inner (round_members f))
+  /\ round_members f =
+     (let prb1 := if negb (probe_validate (prb f)) then probe_clear (prb f) else prb f in
+      match snd (probe_take_failed prb1) with
+      | Some fm =>
+          match apply_existing_if (mems f) (mkMember (m_id fm) (m_inc fm) Suspect) (fun _ => true) with
+          | Some (ms, _) => ms
+          | None => mems f
+          end
+      | None => mems f
+      end).
+Proof. intros Cn. split; [exact (step_round_members rnd f Cn)|reflexivity]. Qed.
+
+Theorem C12_failed_target_becomes_suspect (ms : @members Id) (x : Id) (i : N) (k : member Id) :
+  lookup (inner ms) (addr_of x) = Some k -> m_id k = x -> m_inc k = i -> m_state k = Alive ->
+  exists p ms' sm, nth_error (inner ms) p = Some k
+    /\ apply_existing_if ms (mkMember x i Suspect) (fun _ => true) = Some (ms', sm)
+    /\ inner ms' = set_nth p (mkMember x i Suspect) (inner ms)
+    /\ is_active_now sm = true.
+Proof. exact (suspect_applies ms x i k). Qed.
+
 End C12.
 
 Print Assumptions C12_direct_evidence.
@@ -130,3 +181,7 @@ Print Assumptions C12_relay_indirect_ping.
 Print Assumptions C12_relay_indirect_ack.
 Print Assumptions C12_indirect_for_ourselves.
 Print Assumptions C12_round_end.
+Print Assumptions C12_indirect_stage.
+Print Assumptions C12_pingreq_to_meaning.
+Print Assumptions C12_round_end_members.
+Print Assumptions C12_failed_target_becomes_suspect.
